@@ -36,7 +36,7 @@ MODS = ['html_quote', 'upper', 'lower', 'capitalize', 'spacify', 'url_quote', 'u
         'thousands_commas', 'url_unquote', 'url_unquote_plus']
 
 
-ADDR = re.compile(r'0x[0-9a-fA-F]{6,}')
+ADDR = re.compile(r'0[xX][0-9a-fA-F]{6,}')   # also after an `upper` modifier
 
 
 class Log:
